@@ -333,7 +333,13 @@ Definition do_writecas (ctx : kctx) (exp cas : N) (v : option string) (o : wopts
             | None => writecas_why_not o r  (* unreachable when flag and body agree *)
             end
           else writecas_why_not o r
-      | _, _ => writecas_why_not o r         (* cas=0 matches no row; nil suffix is outside wf *)
+      | Some r0, None =>
+          (* value || NULL is NULL: the statement succeeds where the CAS matches, the read of the whole body
+             for the event then reports the key missing and the transaction is rolled back *)
+          if was_tomb && negb (cas =? 0) then kfail 1 EMissing r
+          else if r_cas r0 =? cas then kfail 1 EMissing r
+          else writecas_why_not o r
+      | None, _ => writecas_why_not o r      (* cas=0 matches no row *)
       end
     else if w_addonly o || (cas =? 0) then
       match r with
@@ -738,6 +744,10 @@ Definition do_subdocwrite (ctx : kctx) (path : string) (cas : N) (v : option jso
 
 (* ------------------------------------------------------------------------------------------ *)
 (* The operation alphabet                                                                       *)
+
+(* a nil value given to Add / AddRaw / Set / SetRaw is an empty body (raw) or JSON null; only deletions store NULL *)
+Definition nil_raw : string := "".
+Definition nil_json : string := "null".
 
 Inductive kop :=
 (* reads *)
